@@ -69,6 +69,8 @@ impl LazyStore {
         let store_location = self.elements.len();
         let variable = LazyVariable::new(store_location);
         trace!("store {} = {}", store_location, value);
+        #[cfg(feature = "verif")]
+        crate::verif::emit(|| crate::verif::json!({"e": "thunk", "i": store_location}));
         self.elements.push(Thunk::new(value, debug_info));
         variable
     }
@@ -78,6 +80,8 @@ impl LazyStore {
         variable: &LazyVariable,
         exec: &mut EvaluationContext,
     ) -> Result<graph::Value, ExecutionError> {
+        #[cfg(feature = "verif")]
+        crate::verif::emit(|| crate::verif::json!({"e": "force", "i": variable.store_location}));
         let variable = &self.elements[variable.store_location];
         let debug_info = variable.debug_info.clone();
         let value = variable.force(exec).with_context(|| debug_info.0.into())?;
@@ -85,6 +89,8 @@ impl LazyStore {
     }
 
     pub(super) fn evaluate_all(&self, exec: &mut EvaluationContext) -> Result<(), ExecutionError> {
+        #[cfg(feature = "verif")]
+        crate::verif::emit(|| crate::verif::json!({"e": "forceall", "n": self.elements.len()}));
         for variable in &self.elements {
             let debug_info = variable.debug_info.clone();
             variable.force(exec).with_context(|| debug_info.0.into())?;
@@ -112,6 +118,8 @@ impl LazyScopedVariables {
         value: LazyValue,
         debug_info: DebugInfo,
     ) -> Result<(), ExecutionError> {
+        #[cfg(feature = "verif")]
+        crate::verif::emit(|| crate::verif::json!({"e": "sadd", "name": name.as_str()}));
         let values = self
             .variables
             .entry(name.clone())
@@ -154,8 +162,14 @@ impl LazyScopedVariables {
         let map = self.force(name, values, exec)?;
 
         let mut result = None;
+        #[cfg(feature = "verif")]
+        let mut verif_at: Option<u32> = None;
 
         if let Some(value) = map.get(&scope.index) {
+            #[cfg(feature = "verif")]
+            {
+                verif_at = Some(scope.index);
+            }
             result = Some(value.clone());
         } else if exec.inherited_variables.contains(name) {
             let mut parent = exec
@@ -165,6 +179,10 @@ impl LazyScopedVariables {
                 .and_then(|n| n.parent());
             while let Some(scope) = parent {
                 if let Some(value) = map.get(&(scope.id() as u32)) {
+                    #[cfg(feature = "verif")]
+                    {
+                        verif_at = Some(scope.id() as u32);
+                    }
                     result = Some(value.clone());
                     break;
                 }
@@ -172,11 +190,17 @@ impl LazyScopedVariables {
             }
         }
 
+        #[cfg(feature = "verif")]
+        crate::verif::emit(|| {
+            crate::verif::json!({"e": "sget", "node": scope.index, "name": name.as_str(), "at": verif_at})
+        });
         cell.replace(ScopedValues::Forced(map));
         result.ok_or_else(|| ExecutionError::UndefinedScopedVariable(format!("{}.{}", scope, name)))
     }
 
     pub(super) fn evaluate_all(&self, exec: &mut EvaluationContext) -> Result<(), ExecutionError> {
+        #[cfg(feature = "verif")]
+        crate::verif::emit(|| crate::verif::json!({"e": "sforceall", "n": self.variables.len()}));
         for (name, cell) in &self.variables {
             let values = cell.replace(ScopedValues::Forcing);
             let map = self.force(name, values, exec)?;
@@ -200,6 +224,10 @@ impl LazyScopedVariables {
                         .evaluate_as_syntax_node(exec)
                         .with_context(|| format!("Evaluating scope of variable _.{}", name,).into())
                         .with_context(|| debug_info.0.clone().into())?;
+                    #[cfg(feature = "verif")]
+                    crate::verif::emit(|| {
+                        crate::verif::json!({"e": "sdef", "node": node.index, "name": name.as_str()})
+                    });
                     match (
                         values.insert(node.index, value.clone()),
                         debug_infos.insert(node.index, debug_info.clone()),
